@@ -363,6 +363,8 @@ def invalid_calls(cls, kind, n, rng, full=True, okv=0):
         else:
             calls.append(f"q 0 getDegree {bv} 0")
             calls.append(f"q 0 getDegree {bv} 1")
+            if cls == "und":
+                calls.append(f"q 0 getNeighbours {bv}")
     if n > 0:
         calls.append(f"resize 0 {n - 1}")
         calls.append("resize 0 0")
@@ -371,6 +373,10 @@ def invalid_calls(cls, kind, n, rng, full=True, okv=0):
             calls += [f"bfs 0 {bv}", f"allpred 0 {bv}", f"geodesicsfrom 0 {bv}", f"allgeodesicsfrom 0 {bv}",
                       f"geodesic 0 {bv} {ok[0]}", f"geodesic 0 {ok[0]} {bv}", f"geodesic 0 {bv} {bv}",
                       f"allgeodesics 0 {bv} {ok[0]}", f"allgeodesics 0 {ok[0]} {bv}", f"allgeodesics 0 {bv} {bv}",
+                      f"pathto 0 {ok[0]} {bv} {ok[0]}", f"pathto 0 {ok[0]} {ok[0]} {bv}", f"pathto 0 {ok[0]} {bv} {bv}", f"pathto 0 {bv} {ok[0]} {ok[0]}",
+                      f"pathto3 0 {ok[0]} {bv}", f"pathto3 0 {bv} {ok[0]}",
+                      f"allpathsto 0 {ok[0]} {bv} {ok[0]}", f"allpathsto 0 {ok[0]} {ok[0]} {bv}", f"allpathsto 0 {ok[0]} {bv} {bv}", f"allpathsto 0 {bv} {ok[0]} {ok[0]}",
+                      f"allpathsto3 0 {ok[0]} {bv}", f"allpathsto3 0 {bv} {ok[0]}",
                       f"subgraph 0 5 S {bv}", f"subgraphremap 0 6 S {bv}"]
             if n > 0:
                 calls += [f"subgraph 0 5 S 0 {bv}", f"subgraphremap 0 6 S {bv} 0"]
@@ -678,6 +684,11 @@ def algo_ops(n, rng=None, all_pairs=True, max_pairs=6):
         pairs = rng.sample(pairs, max_pairs)
     for (s, t) in pairs:
         ops += [f"geodesic 0 {s} {t}", f"allgeodesics 0 {s} {t}"]
+        # the public reconstruction functions called directly (search from s; and from another vertex)
+        ops += [f"pathto 0 {s} {s} {t}", f"allpathsto 0 {s} {s} {t}", f"pathto3 0 {s} {t}", f"allpathsto3 0 {s} {t}"]
+        if n > 1:
+            ps = (s + 1 + (t % (n - 1))) % n
+            ops += [f"pathto 0 {ps} {s} {t}", f"allpathsto 0 {ps} {s} {t}"]
     return ops
 
 
@@ -1183,16 +1194,16 @@ WORKLOADS = {
 # dump-line prefixes each property constrains (R = outcome lines incl. eq/query results)
 PROJECTION = {
     "C01": ("R", "D", "N", "H", "O", "M", "V", "E"),
-    "C02": ("R", "D", "N", "H", "G", "M", "V", "E"),
+    "C02": ("K", "R", "D", "N", "H", "G", "M", "V", "E"),
     "C03": ("R", "L", "H"),
-    "C04": ("R", "D", "N", "H", "X", "O", "G", "M", "E"),
-    "C05": ("R", "D", "N", "H", "W", "O", "G", "M", "E"),
+    "C04": ("K", "R", "D", "N", "H", "X", "O", "G", "M", "E"),
+    "C05": ("K", "R", "D", "N", "H", "W", "O", "G", "M", "E"),
     "C06": ("R", "D", "N", "H", "L", "X", "W"),
-    "C07": ("R", "D", "N", "H", "L", "X", "W", "O", "G", "M", "E", "V"),
+    "C07": ("K", "R", "D", "N", "H", "L", "X", "W", "O", "G", "M", "E", "V"),
     "C08": ("R", "E", "V", "O", "M", "G"),
     "C09": ("R", "D", "N", "H", "L", "X", "W"),
     "C10": ("R", "D", "N", "H", "L"),
-    "C16": ("R", "D", "N", "H", "E", "M", "O", "G", "X", "W"),
+    "C16": ("K", "R", "D", "N", "H", "E", "M", "O", "G", "X", "W"),
     "C11": ("R", "P"),
     "C12": ("R", "P"),
     "C13": ("R", "F", "D", "N", "H", "L"),
